@@ -178,6 +178,10 @@ pub enum FxIndexed { #[codec(index = 3)] A, #[codec(index = 0)] B(u8), #[codec(i
 #[derive(Encode, TypeInfo)]
 #[cfg_attr(kani, derive(kani::Arbitrary))]
 pub enum FxCLike { A = 7, B = 0, C = 200 }
+pub const FX_BASE: isize = 40;
+#[derive(Encode, TypeInfo)]
+#[cfg_attr(kani, derive(kani::Arbitrary))]
+pub enum FxExprDisc { Read = 1 << 0, Write = 1 << 1, Exec = 1 << 2, Tagged = (FX_BASE + 2), Paren = (3 * 7), Plain }
 #[derive(Encode, TypeInfo)]
 #[cfg_attr(kani, derive(kani::Arbitrary))]
 pub enum FxSkipImplicit { A, #[codec(skip)] B(u8), C(u16), #[codec(skip)] D, E { #[codec(skip)] s: u8, x: i32 } }
@@ -201,7 +205,8 @@ def fixed_decls():
     ne = Decl('FxNested', 'struct-named', [], [Field('g', Ty('user', ph, [I('u16')])), Field('e', Ty('user', idx, [])), Field('arr', Ty('array', Ty('user', cl, []), 2)), Field('t', Ty('tuple', [I('u8'), Ty('tuple', [Ty('bool'), I('i16')])])), Field('b', Ty('boxed', I('u32')))])
     sk = Decl('FxSkipImplicit', 'enum', [], [Variant('A', 'unit', []), Variant('B', 'unnamed', [Field('0', I('u8'))], skip=True), Variant('C', 'unnamed', [Field('0', I('u16'))]), Variant('D', 'unit', [], skip=True),
                                               Variant('E', 'named', [Field('s', I('u8'), skip=True), Field('x', I('i32'))])])
-    return [cp, idx, cl, ph, ne, sk], [Ty('user', cp, []), Ty('user', idx, []), Ty('user', cl, []), Ty('user', ph, [I('u32')]), Ty('user', ne, []), Ty('user', sk, [])]
+    ex = Decl('FxExprDisc', 'enum', [], [Variant('Read', 'unit', [], disc=1), Variant('Write', 'unit', [], disc=2), Variant('Exec', 'unit', [], disc=4), Variant('Tagged', 'unit', [], disc=42), Variant('Paren', 'unit', [], disc=21), Variant('Plain', 'unit', [])])
+    return [cp, idx, cl, ph, ne, sk, ex], [Ty('user', cp, []), Ty('user', idx, []), Ty('user', cl, []), Ty('user', ph, [I('u32')]), Ty('user', ne, []), Ty('user', sk, []), Ty('user', ex, [])]
 
 
 # ----------------------------------------------------------------------------- flatten (declaration model) -> Rust code
@@ -578,6 +583,12 @@ def build_c04(thorough, seed=0):
     for n in ['u8', 'u16', 'u32', 'u64', 'i8', 'i32', 'i64'] + (['i16', 'u128', 'i128'] if thorough else []): add(Ty('nonzero', n))
     add(Ty('duration'), 'let nanos: u32 = kani::any(); kani::assume(nanos < 1_000_000_000); let v = core::time::Duration::new(kani::any(), nanos);')
     add(Ty('phantom', I('u8')), 'let v: PhantomData<u8> = PhantomData;')
+    PH = lambda t: Ty('phantom', t)
+    add(Ty('tuple', [PH(I('u8')), I('u64')]), 'let v: (PhantomData<u8>, u64) = (PhantomData, kani::any());')
+    add(Ty('tuple', [I('u8'), PH(B), I('u32'), B]), 'let v: (u8, PhantomData<bool>, u32, bool) = (kani::any(), PhantomData, kani::any(), kani::any());')
+    add(Ty('tuple', [I('u16'), PH(I('u8'))]), 'let v: (u16, PhantomData<u8>) = (kani::any(), PhantomData);')
+    add(Ty('opt', Ty('tuple', [PH(I('u8')), I('u16'), PH(I('u32')), I('u8')])), 'let v: Option<(PhantomData<u8>, u16, PhantomData<u32>, u8)> = if kani::any() { Some((PhantomData, kani::any(), PhantomData, kani::any())) } else { None };')
+    add(Ty('array', Ty('tuple', [PH(I('u8')), I('u8')]), 2), 'let v: [(PhantomData<u8>, u8); 2] = [(PhantomData, kani::any()), (PhantomData, kani::any())];')
     # nesting, depth 2 (+ seeded depth 3 in the thorough tier)
     add(Ty('opt', Ty('array', I('u16'), 2))); add(Ty('array', Ty('opt', B), 2)); add(Ty('opt', Ty('boxed', I('u32')))); add(Ty('boxed', Ty('tuple', [I('u8'), I('u16')])))
     add(Ty('result', Ty('opt', I('u8')), Ty('tuple', [I('u8'), I('u8')])))
